@@ -18,8 +18,12 @@ package ctree
 //@   && (forall k string :: has(heapsel("Tree.leafBranch", x).(branch), k) ==> heapsel("Tree.leafBranch", x).(branch)[k] != nil)
 //@ pred Tail(path []string) := sub(view(path), 1, len(path))
 
-// leafBranch (and the child map it may hold) is only touched under the node's own lock.
-//@ owner Tree.leafBranch lock mu
+// leafBranch (and the child map it may hold) is only touched under the node's own lock;
+// at every acquisition it is whatever other goroutines left there.
+//@ monitor Tree.mu protects leafBranch invariant NodeInv
+//@ pred NodeInv(t *Tree) := IsBranch(t) ==> Kids(t) != nil && (forall k string :: has(Kids(t), k) ==> Kids(t)[k] != nil)
+// descents: how often the add has been handed on to slowAdd / to a child's Add.
+//@ ghost descents int
 
 // Visitors may keep the path they are handed: it must not be written afterwards.
 //@ ghost visits int
@@ -71,17 +75,20 @@ package ctree
 
 //@ func (*Tree).IsBranch
 //@   props C09 C10 C12
+//@   locks t
 //@   ensures t == nil ==> !res0
 //@   ensures t != nil ==> (res0 <==> IsBranch(t))
 
 //@ func (*Tree).Value
 //@   props C09 C10 C12
+//@   locks t
 //@   ensures t == nil ==> res0 == nil
 //@   ensures t != nil ==> res0 == ite(IsBranch(t), nil, t.leafBranch)
 
 // terminalAdd: a branch is never overwritten by a value (fails unchanged); otherwise the value is stored.
 //@ func (*Tree).terminalAdd
 //@   props C09 C10 C12
+//@   locks t
 //@   requires t != nil && PlainValue(value) && TreeWf()
 //@   modifies t.leafBranch
 //@   ensures [tree-stays-wf] TreeWf()
@@ -94,6 +101,7 @@ package ctree
 //@ func (*Tree).slowAdd
 //@   props C09 C10 C12
 //@   requires t != nil && wheld(t.mu) && len(path) >= 1 && TreeWf() && PlainValue(value)
+//@   effect descents := descents + 1
 //@   modifies *
 //@   allocates Tree
 //@   ensures [tree-stays-wf] TreeWf()
@@ -107,8 +115,10 @@ package ctree
 // exchange it for the write lock and let slowAdd re-check.
 //@ func (*Tree).intermediateAdd
 //@   props C09 C10 C12
+//@   locks t
 //@   requires t != nil && len(path) >= 1 && TreeWf() && PlainValue(value)
 //@   modifies *
+//@   ensures [only-slowAdd-or-a-child-writes C10] descents == old(descents) ==> t.leafBranch == old(t.leafBranch)
 //@   allocates Tree
 //@   ensures [tree-stays-wf] TreeWf()
 //@   assert at call (*Tree).slowAdd#0: [write-lock-held-for-the-slow-path C10] wheld(t.mu) && arg0 == t && arg1 == path && arg2 == value
@@ -117,6 +127,7 @@ package ctree
 //@ func (*Tree).Add
 //@   props C09 C10 C12
 //@   requires t != nil && TreeWf() && PlainValue(value)
+//@   effect descents := descents + 1
 //@   modifies *
 //@   allocates Tree
 //@   ensures [tree-stays-wf] TreeWf()
